@@ -594,6 +594,47 @@ pub fn g_mutations(o: &mut Out, types: &[&str]) {
     }
 }
 
+/// C06 through the streaming entry point: a non-ASCII character whose low byte (or low 7 bits) is a token byte, substituted
+/// into or inserted in a valid numeral and delivered character by character through `write_char` (and once through
+/// `write_str`): a parser that narrows `char` to `u8` would read it as the token
+pub fn g_nonascii_chars(o: &mut Out, types: &[&str]) {
+    let tokens = b"0159+-.eEiInNfFtTyYsSaA()";
+    for seed in SEEDS {
+        let chars: Vec<char> = seed.chars().collect();
+        for i in 0..=chars.len() {
+            for &tb in tokens.iter() {
+                for plane in [0x100u32, 0x200, 0x1_0000, 0x80] {
+                    let Some(alias) = char::from_u32(plane + tb as u32) else { continue };
+                    for subst in [true, false] {
+                        if subst && i >= chars.len() {
+                            continue;
+                        }
+                        // keep the set small: substitute only where the alias would make (or keep) a numeral
+                        if subst && !chars[i].eq_ignore_ascii_case(&(tb as char)) && o.rng.below(4) != 0 {
+                            continue;
+                        }
+                        if !subst && o.rng.below(6) != 0 {
+                            continue;
+                        }
+                        let mut v = chars.clone();
+                        if subst { v[i] = alias } else { v.insert(i, alias) }
+                        let by_char: Vec<String> = v.iter().map(|c| format!("c{}", tx(&c.to_string()))).collect();
+                        let whole: String = v.iter().collect();
+                        for ty in types {
+                            let cap = text_cap(ty).map_or("-".to_string(), |c| c.to_string());
+                            o.put(&format!("nonascii-char/{}", ty), format!("parse_fmt {} {} {} -", ty, cap, by_char.join(",")));
+                            if plane == 0x100 {
+                                o.put(&format!("nonascii-str/{}", ty), format!("parse_fmt {} {} {} -", ty, cap, tx(&whole)));
+                                o.put(&format!("nonascii-str/{}", ty), format!("parse_str {} {}", ty, tx(&whole)));
+                            }
+                        }
+                    }
+                }
+            }
+        }
+    }
+}
+
 /// digits after a closed payload, second points, signs inside: longer targeted invalid strings
 pub fn g_targeted_invalid(o: &mut Out) {
     let xs = [
